@@ -454,7 +454,9 @@ def step (st : St) (line : String) : St × String :=
      | some (.ts S ts) => (st.put (nat 1) (.ts S (ts.setSendingNonce (nat 2).toUInt64)), "ok")
      | _ => (st, "nosession"))
   | "drop" => (st.del (nat 1), "ok")
-  | "resolve" =>
+  | "resolve" | "resolve_on" =>
+    -- `resolve_on` asks one long-lived resolver instance; the model's resolvers are values, so the answer is
+    -- the same function of (expression, kind, choice)
     (match parseRExpr 8 (arg 1) with
      | some e => (st, resolveLine e (arg 2) (arg 3))
      | none => (st, "badexpr"))
